@@ -300,7 +300,11 @@ def build : Ast → Flags → BState → Except BErr BOut
         let props := if name == "last" then { props0 with hasLast := true }
                      else if name == "position" then { props0 with hasPosition := true } else props0
         let q := if name == "reverse" then Plan.transform name (argsQ.argList.getD 0 .nil) else Plan.func name fi argsQ
-        .ok ⟨q, props, leave ao.st⟩
+        -- zero-argument `normalize-space()`, `string()`, `number()`: the builder synthesises a
+        -- `self::node()` axis node and sends it through `processNode` (depth check, `firstInput`)
+        let synth := (name == "normalize-space" || name == "string" || name == "number") && n == 0
+        if synth && ao.st.depth + 1 > limit then .error .tooComplex
+        else .ok ⟨q, props, leave (if synth then { ao.st with firstInput := some (.self selfNodeAxis .context) } else ao.st)⟩
   | .axis a .none, fl, st => enter st fun st => do
     let (q, props) ← axisPlan a fl {} .context
     finAxis q props { st with firstInput := none }
